@@ -460,6 +460,9 @@ def miri_run(flags="", timeout=3000):
 
 
 def harness_run(binary, args, timeout=1800, input=None, env=None):
+    # development aid (tools/coverage.sh): run an instrumented copy of the default binary instead
+    if os.environ.get("VERIF_HARNESS_OVERRIDE") and os.path.basename(binary) == "vh-release":
+        binary = os.environ["VERIF_HARNESS_OVERRIDE"]
     rc, out, err, dt = sh([binary] + [str(a) for a in args], timeout=timeout, input=input, env=env)
     return rc, out, err, dt
 
